@@ -43,7 +43,11 @@ type C13Plan struct {
 	Sdp     string          `json:"sdp,omitempty"` // mutated SDP for ANNOUNCE (empty: a valid one)
 	Items   []C13Item       `json:"items"`
 	ByUnits int             `json:"by_units"`
+	V       int             `json:"v,omitempty"` // generator version of the hostile-shape tables (replays of older plans keep their shapes)
 }
+
+// c13V is the shape-table version of the plan being run (set at the start of each run).
+var c13V int
 
 var c13Surfaces = []string{"rtsp_cmd", "rtsp_cmd", "rtsp_pub_media", "rtsp_pub_media", "rtsp_pub_media", "rtsp_sub", "ws_rtsp", "gb_udp", "gb_udp", "gb_tcp", "http", "api", "up_rtmp", "up_rtsp"}
 
@@ -147,6 +151,27 @@ func c13RtpHostile(r *sim.Rng, pt uint8, kind string, seq uint16) []byte {
 		return h
 	}
 	ok := hdr(0x80, pt)
+	if c13V >= 2 && r.Bool(0.15) {
+		// complete CSRC list and / or extension, then padding counts around every boundary of the packet
+		cc := r.Intn(4)
+		b0 := byte(0xa0) | byte(cc)
+		ext := r.Bool(0.5)
+		if ext {
+			b0 |= 0x10
+		}
+		p := hdr(b0, pt)
+		p = append(p, randBytes(r.U64(), 4*cc)...)
+		if ext {
+			words := r.Intn(3)
+			p = append(p, 0xbe, 0xde, 0, byte(words))
+			p = append(p, randBytes(r.U64(), 4*words)...)
+		}
+		off := len(p)
+		p = append(p, randBytes(r.U64(), 1+r.Intn(8))...)
+		rest := len(p) - off
+		p[len(p)-1] = []byte{byte(rest - 1), byte(rest), byte(rest + 1), byte(len(p) - 12 - 1), byte(len(p) - 12), 1, byte(rest + 3)}[r.Intn(7)]
+		return p
+	}
 	switch r.Intn(14) {
 	case 0:
 		return randBytes(r.U64(), r.Intn(16))
@@ -286,6 +311,9 @@ func c13PsHostile(r *sim.Rng, seq uint16, ts uint32) []byte {
 			ps = append(append(ps, pack...), pes(0xe0, nal, true)...)
 		}
 	}
+	if c13V >= 2 && r.Bool(0.15) {
+		return c13RtpHostile(r, 96, "raw", seq)
+	}
 	p := rtpc.Packet{PT: 96, Seq: seq, Ts: ts, Ssrc: 0x33330000, Payload: ps, Marker: r.Bool(0.5)}
 	b := p.Marshal()
 	if r.Bool(0.08) {
@@ -424,6 +452,7 @@ func genC13Plan(r *sim.Rng, tier string) C13Plan {
 	p.Sched = GenSched(r.Fork("sched"), tier == "thorough")
 	p.Sched.MaxSteps = 200000
 	p.Surface = c13Surfaces[r.Intn(len(c13Surfaces))]
+	p.V = 2
 	p.Tcp = r.Bool(0.5)
 	p.Video = []string{"avc", "avc", "hevc", ""}[r.Intn(4)]
 	p.Audio = []string{"aac", "aac", "pcma", "opus", ""}[r.Intn(5)]
@@ -572,6 +601,7 @@ func (s *rtspOriginStub) OnData(c *sim.Conn, b []byte) {
 func (s *rtspOriginStub) OnClose(c *sim.Conn) { s.closed = true }
 
 func runC13(k *sim.Kernel, p C13Plan) {
+	c13V = p.V
 	// upstream stubs must exist before the server dials
 	var origin *rtspOriginStub
 	k.RegisterStub("10.9.9.8:554", func(c *sim.Conn) (sim.ConnHandler, time.Duration) {
